@@ -25,6 +25,18 @@ MUTANTS = [
     ("product-reversed-axes", "C01", "xyzpy/gen/combo_runner.py",
      "        for combo_params in itertools.product(*combo_values):\n            loc = case_params + combo_params",
      "        for combo_params in itertools.product(*combo_values[::-1]):\n            combo_params = combo_params[::-1]\n            loc = case_params + combo_params"),
+    ("write-in-place", "C11", "xyzpy/gen/cropping.py",
+     '        with open(tmp_fname, "wb") as file:\n            pickle.dump(obj, file)\n        os.replace(tmp_fname, fname)',
+     '        with open(fname, "wb") as file:\n            pickle.dump(obj, file)'),
+    ("shared-temp-name", "C11", "xyzpy/gen/cropping.py",
+     'tmp_fname = "{}.{}-{}.tmp".format(fname, os.getpid(), uuid.uuid4().hex)',
+     'tmp_fname = fname + ".tmp"'),
+    ("temp-name-matches-glob", "C11", "xyzpy/gen/cropping.py",
+     'tmp_fname = "{}.{}-{}.tmp".format(fname, os.getpid(), uuid.uuid4().hex)',
+     'tmp_fname = "{}.{}-{}.tmp.jbdmp".format(fname[:-6], os.getpid(), uuid.uuid4().hex)'),
+    ("rename-before-write", "C11", "xyzpy/gen/cropping.py",
+     '        with open(tmp_fname, "wb") as file:\n            pickle.dump(obj, file)\n        os.replace(tmp_fname, fname)',
+     '        with open(tmp_fname, "wb") as file:\n            os.replace(tmp_fname, fname)\n            pickle.dump(obj, file)'),
     ("constants-dropped-when-shuffled", "C01", "xyzpy/gen/combo_runner.py",
      "            kws.update(constants)\n",
      "            kws.update(constants if not (shuffle and len(combo_values) > 2) else {})\n"),
